@@ -208,12 +208,57 @@ func lexStringRule(p *core.Program, r *core.Report, rule, file, name string) {
 	}
 }
 
+// c14R8: explicit conditions carry the literal's value unchanged.
+func c14R8(p *core.Program, r *core.Report) {
+	vc := p.Method("contactql", "visitor", "VisitCondition")
+	if vc == nil {
+		r.Errorf("contactql visitor.VisitCondition not found")
+		return
+	}
+	n := 0
+	for _, ec := range core.EffectiveCalls(vc, 2) {
+		g := ec.Inner.Common().StaticCallee()
+		if g == nil || g.Name() != "NewCondition" || len(ec.Inner.Common().Args) < 4 {
+			continue
+		}
+		n++
+		val := ec.Inner.Common().Args[3]
+		// a helper's parameter is what VisitCondition passed
+		if prm, ok := core.StripConv(val).(*ssa.Parameter); ok && ec.Outer != ec.Inner.Instr {
+			if outer, isCall := ec.Outer.(*ssa.Call); isCall {
+				for k, fp := range prm.Parent().Params {
+					if fp == prm && k < len(outer.Call.Args) {
+						val = outer.Call.Args[k]
+					}
+				}
+			}
+		}
+		why := ""
+		for w := range core.BackSlice(val, nil) {
+			if c, ok := w.(*ssa.Call); ok {
+				if o := core.CalleeObj(&c.Call); o == nil || (o.Name() != "Visit" && o.Name() != "Accept") {
+					name := "a call"
+					if o != nil {
+						name = core.ObjName(o)
+					}
+					why = "it went through " + name + " (" + p.Pos(c.Pos()) + ")"
+				}
+			}
+		}
+		r.Check(why == "", "R8", fmt.Sprintf("VisitCondition/NewCondition#%d/value-as-written", n), p.Pos(ec.Inner.Pos()), "the value is what visiting the literal returned", "the value of an explicit condition is not the literal as written: "+why)
+	}
+	r.Count("explicit_condition_constructions", n)
+	r.Require("explicit_condition_constructions", n, 1)
+}
+
 func checkC14(p *core.Program, r *core.Report) {
 	r.Rule("R1", "escaping is applied everywhere and pairs with the reader: every evaluation of a contact_query template passes flows.ContactQueryEscaping; ContactQueryEscaping and Condition.String derive their quoted output from strconv.Quote; VisitStringLiteral derives from strconv.Unquote; the regexp that licenses unquoted output only admits characters of the grammar's TEXT token")
 	r.Rule("R2", "the STRING lexer rule is termination-unambiguous (no accepted literal is a proper prefix of another) and accepts every strconv.Quote image, over the abstract alphabet {quote, backslash, other}")
 	r.Rule("R3", "operator tables: every Operator constant is a COMPARATOR literal of the grammar; aliases map grammar fragments to operators; Condition.String prints the condition's own operator; BoolCombination.String always parenthesises and joins with its own operator")
 	r.Rule("R4", "property prefixes: the writer's `fields.` / `urns.` prefixes pair with the reader's prefix arms and property types")
 	r.Rule("R5", "structure is kept by the parser's own rewriting: every type switch over QueryNode in contactql covers both node types, and Simplify flattens only children with the same operator and keeps their order (shared with C15/R5)")
+	r.Rule("R8", "an explicit condition keeps the value that was written: every contactql.NewCondition made on behalf of visitor.VisitCondition (directly or in a helper of the package) gets as its value what visiting the literal returned, with no call in between — only the implicit conditions (a bare phone number) may clean their text; a tel value stripped to digits in an explicit condition makes `urns.tel = \"n/a\"` an existence test and a built query not parse back to itself")
+	c14R8(p, r)
 	r.Rule("R7", "what is printed is accepted again: Condition.String writes every URN condition in the prefixed form (`urns.tel = …`), the parser accepts URN conditions in three spellings, and each spelling has its own arm in the condition visitor — the arms that reject a condition under URN redaction exempt the same conditions (the set / not-set checks, value == \"\"): a stricter arm for one spelling makes the printed form of an accepted query unparseable")
 	c14R7(p, r)
 	r.Rule("R6", "the lexer reads the query text as given: what ParseQuery hands to antlr.NewInputStream is its text parameter after strings.TrimSpace, or the whole-text phone number rewrite `tel = <number>`; no other call may transform the text (a rewrite before lexing also rewrites the inside of quoted, escaped literals)")
